@@ -940,10 +940,18 @@ def _short_of_take_limit(b, read_call, at_bb):
             for st in [("origin", lt.origin)] + [(x[0], x) for x in lt.steps]:
                 pass
             cur = tt["args"][1]
-            for _ in range(4):
+            for _ in range(6):
                 if not is_place(cur):
                     break
                 ds = b.whole_defs(cur["p"]["l"])
+                if len(ds) == 1 and ds[0][2] == "call":
+                    # a value-preserving integer conversion: `u64::try_from(needed).unwrap_or(u64::MAX)`, `needed.into()`
+                    cf_ = fn_of(ds[0][3]) or {}
+                    if (cf_.get("trait") in ("std::convert::TryFrom", "std::convert::TryInto", "std::convert::From", "std::convert::Into") or cf_.get("def", "").startswith("std::result::Result::<T, E>::unwrap") or cf_.get("def") == "std::result::Result::<T, E>::expect") and ds[0][3]["args"] and is_place(ds[0][3]["args"][0]):
+                        cur = ds[0][3]["args"][0]
+                        lim_roots.add(cur["p"]["l"])
+                        continue
+                    break
                 if len(ds) != 1 or ds[0][2] != "assign":
                     break
                 rv = ds[0][3]["rv"]
@@ -1007,6 +1015,25 @@ def _source_reads(b, src_fields):
     return ok_edges
 
 
+def _read_passthrough_helper(lib, callee):
+    """(reader parameter, buffer parameter) when every return of the same-crate function is the unchanged Result of one
+    `Read::read(<reader parameter>, <buffer parameter>)` call of its own (a retry-on-Interrupted wrapper); else None."""
+    reads = [(bb, t) for bb, t in callee.calls() if (fn_of(t) or {}).get("trait") == "std::io::Read" and (fn_of(t) or {}).get("name") == "read" and len(t["args"]) == 2]
+    if len(reads) != 1 or not callee.local_ty(0).startswith("std::result::Result<usize, std::io::Error>"):
+        return None
+    rb, rt = reads[0]
+    ra, ba = trace(callee, rt["args"][0]), trace(callee, rt["args"][1])
+    if not (ra.origin and ra.origin[0] == "arg" and ba.origin and ba.origin[0] == "arg"):
+        return None
+    for _, _, kind, payload in callee.whole_defs(0):
+        if kind != "assign" or payload["rv"]["k"] != "use":
+            return None
+        tr = trace(callee, payload["rv"]["op"])
+        if not (tr.origin and tr.origin[0] == "call" and tr.origin[2] is rt and all(s_[0] == "use" for s_ in tr.steps)):
+            return None
+    return ra.origin[1], ba.origin[1]
+
+
 def _on_zero_count_arm(lib, b, bi, src_fields):
     """Block bi is dominated by the `0` edge of a switch on the Ok payload of a `read` of the source
     (`match self.source.read(..) { Ok(0) => <here>, .. }`)."""
@@ -1015,7 +1042,15 @@ def _on_zero_count_arm(lib, b, bi, src_fields):
         if sw["k"] != "switch" or not is_place(sw["discr"]):
             continue
         zero = [t_ for v_, t_ in sw["targets"] if v_ == 0]
-        if not zero or not sw["discr"]["p"]["pr"]:
+        if not sw["discr"]["p"]["pr"]:
+            # `if got == 0 { .. }`: the true edge of a comparison of the count with 0
+            dl = sw["discr"]["p"]["l"]
+            for s_ in b.blocks[sb]["stmts"]:
+                if s_["k"] == "assign" and not s_["p"]["pr"] and s_["p"]["l"] == dl and s_["rv"]["k"] == "binop" and s_["rv"]["op"] == "Eq" and const_value(s_["rv"]["b"]) == 0 and _is_source_read_count(lib, b, s_["rv"]["a"], src_fields):
+                    if b.edge_dominates(sb, "otherwise", sw["otherwise"], bi):
+                        return True
+            continue
+        if not zero:
             continue
         if not _is_source_read_count(lib, b, sw["discr"], src_fields):
             continue
@@ -1037,6 +1072,11 @@ def _is_source_read_count(lib, b, op, src_fields, depth=0):
     callee = lib.by_id.get(f.get("resolved") or f.get("def")) if f.get("local") else None
     if callee is None or depth >= 2 or callee.id == b.id:
         return False
+    pt = _read_passthrough_helper(lib, callee)
+    if pt is not None and len(src["args"]) >= pt[0]:
+        # `read_retrying(&mut self.source, buf)?`: the helper hands back the source's own read result
+        rtr = trace(b, src["args"][pt[0] - 1])
+        return any(st[0] == "field" and st[1] in src_fields for st in rtr.steps)
     good = 0
     for db, _, kind, payload in callee.whole_defs(0):
         if kind == "call":
